@@ -288,12 +288,12 @@ CLAIMS['C18'] = dict(category='other', ref='5 Core G, 8 C18',
          "lean/Mqtt/Proofs/LocksTable.lean; the Go memory model as formalised in lean/Mqtt/Spec/Locks.lean; the race workload and report parser")
 
 CLAIMS['C03'] = dict(category='proof', ref='5 Core A, 8 C03',
-    text='Lean 4 theorems about the code-shaped model of package message, for all messages / byte strings / counter values: encode_len (Encode writes exactly Len() bytes), encode_is_wire + decode_encode + encode_succeeds for every message built from Type.New() by setter calls (bytes = MQTT 3.1.1 reference encoding of the fields; decoding them gives equal fields; a well-formed field record is never refused), encode_decode_canonical (every accepted byte string re-encodes to exactly its first n bytes, Len() = n), auto_id_nonzero / auto_id_lt / auto_id_in_packet (all 2^64 counter values); model tied to message/*.go by differential runs (real code vs model vs reference codec written from the specification) and regenerated facts. Decoded-then-modified messages (in-place setter path) are correspondence-checked only.',
+    text='Lean 4 theorems about the code-shaped model of package message, for all messages / byte strings / counter values: encode_len (Encode writes exactly Len() bytes, every message object), encode_is_wire + decode_encode + encode_succeeds for every message built from Type.New() by setter calls (bytes = MQTT 3.1.1 reference encoding of the fields; decoding them gives equal fields; a well-formed field record is never refused), encode_decode_canonical (every accepted byte string re-encodes to exactly its first n bytes, Len() = n), auto_id_nonzero / auto_id_lt / auto_id_in_packet (all 2^64 counter values). Reachable messages = Type.New() OR the result of a successful Decode of any byte string, closed under all 25 setters (what the broker does to every forwarded PUBLISH: SetQoS/SetRetain/SetDup/SetPacketID write through aliases into the decode buffer while the object is not dirty), all 14 types: C03_reachable_shape, C03_reachable_encode_len, C03_reachable_encode_succeeds, C03_reachable_dirty_encode_is_wire (once dirty, whatever it was decoded from), and C03_reachable_encode_is_wire_partial / C03_reachable_decode_encode_partial for every run that is not Excluded (decidable: the decoder input was not the reference encoding of the fields it returned AND no setter has marked the object dirty since). With the weaker reading `Wire.Encodes` (type/flags byte, ANY one- to four-byte form of the remaining length that section 2.2.3 reads back as the body length, body - MQTT 3.1.1 does not require the shortest form): C03_reachable_encode_is_encoding_partial covers every run that is not ExcludedV (decidable: the input was not even such an encoding of the returned fields AND the object is still clean), i.e. the in-place path for every remaining-length form a client may use; a clean object keeps the remaining-length bytes of its input, a dirty one gets the shortest form; C03_reachable_decode_encode_encoding_partial (round trip for the same runs: decoding the bytes written gives equal fields, whatever form of the remaining length the decoded input used); C03_excludedV_excluded (ExcludedV leaves out fewer runs than Excluded); C03_reachable_encode_is_encoding_counterexample (the leniently accepted CONNECT is all that remains). The unrestricted statement is false of the code: C03_reachable_encode_is_wire_counterexample (closed terms, reproduced on the real code with `codec build 3 from=32870000016100076869 qos=2 ret=1 dup=1 id=9` -> 3d870000016100096869: a remaining length written with two bytes is kept; and `codec build 1 from=100d00044d51545404820000000161`: a CONNECT whose user-name flag announces a missing field is re-emitted as it came). Model tied to message/*.go by differential runs (real code vs model vs reference codec written from the specification; `codec build from=` = decoded-then-modified messages) and regenerated facts. PARTIAL: what stays excluded in both statements is a clean object whose input was not an encoding of the returned fields in any remaining-length form (the CONNECT whose user-name/password flag announces a missing field, accepted leniently): correspondence-checked only; that every other accepted input is such an encoding (byte-exactness of the decoders), and hence that ExcludedV names exactly the failing runs, is shown by witnesses and the differential runs, not proved.',
     technique='machine-checked proof in Lean 4 + differential correspondence to the Go code (real code vs code-shaped model vs MQTT 3.1.1 reference codec)',
     note='Trusted: Lean kernel; axioms propext/Classical.choice/Quot.sound only; Go harness + line protocol + fact extractor; Go runtime semantics assumed by the model (see evidence.assumptions)')
 
 CLAIMS['C04'] = dict(category='proof', ref='5 Core A, 8 C04',
-    text='Lean 4 theorems about the code-shaped model of the 14 decoders, for every type number and every byte string (cap = len): decode_total (never a panic / out-of-bounds access), decode_count_le, decode_fields_inside (every returned field is src[off:off+len] with off+len <= n), decode_keeps_packet, decode_accepts_wf (every well-formed MQTT 3.1.1 packet, followed by anything, is accepted with exactly its fields and length); model tied to message/*.go by differential runs under recover (malformed stream, truncation at every offset, exhaustive small inputs) and regenerated facts. The byte count of error returns is checked by the harness only.',
+    text='Lean 4 theorems about the code-shaped model of the 14 decoders, for every type number and every byte string (cap = len): decode_total (never a panic / out-of-bounds access), decode_count_le, C04_error_count_le (the byte count returned together with an error - modelled by decodeNewErrN, the positions of the error returns - is never larger than the input), decode_fields_inside (every returned field is src[off:off+len] with off+len <= n), decode_keeps_packet, decode_accepts_wf (every well-formed MQTT 3.1.1 packet, followed by anything, is accepted with exactly its fields and length) and C04_decode_accepts_wf_any_length (the same for every permitted one- to four-byte form of the remaining length, not only the shortest). Reference decoder of the specification: C04_reference_decoder_complete (Wire.decode accepts the reference encoding of every well-formed packet of all 14 types, followed by anything), C04_reference_decoder_inverse (with soundness: it answers (p, n) exactly when the first n bytes are the reference encoding of the well-formed p of the requested type), C04_decode_agrees_with_reference (whatever the reference decoder accepts the library decoder accepts with the same count and fields). Model tied to message/*.go by differential runs under recover (malformed stream, truncation at every offset, exhaustive small inputs; error returns are compared including their count, `err n=<count>`) and regenerated facts. PARTIAL: the error count is tied by the differential runs only (header.decode is translated, but its tie theorem does not state the count of error returns).',
     technique='machine-checked proof in Lean 4 + differential correspondence to the Go code (real code vs code-shaped model vs MQTT 3.1.1 reference codec)',
     note='Trusted: Lean kernel; axioms propext/Classical.choice/Quot.sound only; Go harness + line protocol + fact extractor; Go runtime semantics assumed by the model (see evidence.assumptions)')
 
